@@ -33,6 +33,9 @@ func devMain(args []string) int {
 	rt := fs.Bool("rt", false, "round trip at the end")
 	getters := fs.Bool("getters", false, "list discovered getters")
 	show := fs.Bool("show", false, "show differing values")
+	tailN := fs.Int("tail", 0, "random tail blocks")
+	pad := fs.Int64("pad", 0, "pad with empty blocks to this height")
+	stats := fs.Bool("stats", false, "print per-tag success counts")
 	_ = fs.Parse(args)
 	if *getters {
 		c := NewFresh(Funds())
@@ -75,6 +78,29 @@ func devMain(args []string) int {
 		}
 	}
 	g.Base()
+	g.Tail(*tailN)
+	if *pad > 0 {
+		g.PadTo(*pad)
+	}
+	if *stats {
+		cnt := map[string][2]int{}
+		for _, rs := range g.Res {
+			for _, r := range rs {
+				c := cnt[r.Tag]
+				if r.OK {
+					c[0]++
+				} else {
+					c[1]++
+				}
+				cnt[r.Tag] = c
+			}
+		}
+		for _, k := range sim.SortedKeys(cnt) {
+			fmt.Printf("%-26s ok=%d fail=%d\n", k, cnt[k][0], cnt[k][1])
+		}
+		fmt.Println("blocks", len(g.W.Blocks), "height", g.C.Height)
+		return 0
+	}
 	if *rt {
 		if br := g.C.EndCommit(); br.Panic {
 			fmt.Println("endcommit panic", br.Err)
@@ -126,9 +152,26 @@ func roundtripMain(args []string) int {
 	out := fs.String("out", "genesis.ndjson", "tree log")
 	every := fs.Int("every", 4, "round trip after every n-th block")
 	tail := fs.Int("tail", 0, "random tail blocks")
+	behs := fs.String("behaviours", "", "file with the T lines of MC_Genesis")
+	maxBeh := fs.Int("maxbeh", 1000, "")
 	_ = fs.Parse(args)
 	lg := &sim.Log{}
 	var stt RTStats
+	nbeh := 0
+	if *behs != "" {
+		hs, err := ReadBehaviours(*behs)
+		if err != nil {
+			fmt.Fprintln(os.Stderr, err)
+			return 1
+		}
+		for n, h := range hs {
+			if n >= *maxBeh {
+				break
+			}
+			RunBehaviour(n, h, lg, &stt)
+			nbeh++
+		}
+	}
 	run := fmt.Sprintf("wl:%d", *seed)
 	g := NewGen(*seed)
 	g.Base()
@@ -150,6 +193,6 @@ func roundtripMain(args []string) int {
 		fmt.Fprintln(os.Stderr, err)
 		return 1
 	}
-	fmt.Printf("roundtrip: nodes=%d %+v\n", len(lg.Nodes), stt)
+	fmt.Printf("roundtrip: nodes=%d behaviours=%d %+v\n", len(lg.Nodes), nbeh, stt)
 	return 0
 }
